@@ -424,6 +424,11 @@ def _apply_op(m, op, operand=None):
         return m.clone(sized=False, indexable=False, listable=False,
                        items=(m.items and m.listable and m.labelstate == 'unique'
                               and m.bykey))
+    if k == 'catchfilter':
+        # .map(raise FilterException for ids divisible by mod).catch(): the
+        # examples that raise are dropped, everything else as for catch
+        c = _apply_op(m.clone(batched=False), ('catch',))
+        return c.clone(entries=[(a, v) for a, v in c.entries if sid(v) % op[1] != 0])
     if k in ('copy', 'freeze'):
         _need(m.copyable, 'dataset has no copy')
         return m.clone()
